@@ -92,7 +92,14 @@ func trHeaderBlock(en *env, recv string, stmts []ast.Stmt, indent string) string
 	for _, st := range stmts {
 		switch t := st.(type) {
 		case *ast.AssignStmt:
-			if len(t.Lhs) != 1 || len(t.Rhs) != 1 || t.Tok != token.ASSIGN {
+			if len(t.Lhs) != 1 || len(t.Rhs) != 1 {
+				bail("assignment form not supported")
+			}
+			// `x op= e` is `x = x op (e)`
+			if op, ok := map[token.Token]token.Token{token.OR_ASSIGN: token.OR, token.AND_ASSIGN: token.AND, token.AND_NOT_ASSIGN: token.AND_NOT,
+				token.XOR_ASSIGN: token.XOR, token.ADD_ASSIGN: token.ADD, token.SUB_ASSIGN: token.SUB, token.SHL_ASSIGN: token.SHL, token.SHR_ASSIGN: token.SHR}[t.Tok]; ok {
+				t = &ast.AssignStmt{Lhs: t.Lhs, Tok: token.ASSIGN, Rhs: []ast.Expr{&ast.BinaryExpr{X: t.Lhs[0], Op: op, Y: &ast.ParenExpr{X: t.Rhs[0]}}}}
+			} else if t.Tok != token.ASSIGN {
 				bail("assignment form not supported")
 			}
 			ix, ok := t.Lhs[0].(*ast.IndexExpr)
